@@ -1,1 +1,225 @@
-/-! Property theorems for C06 (statements + proofs by reference to `Proof/`). Not built yet. -/
+import GraafVerif.Proof.Dfs
+import GraafVerif.Proof.DfsSpec
+/-!
+# C06 — depth-first search visits exactly the reachable set in a depth-first preorder
+
+Only statements and proofs by reference.  `dfs`, `dfsDist`, `dfsPred`, `predecessors`
+(Model/Dfs.lean) are the model of TODAY's `Dfs`, `DfsDist`, `DfsPred`, `DfsPred::predecessors`
+(tied to the code by the correspondence run); `dfsFixed` … are the same model with the one-line
+repair (skip a stale stack entry instead of ending the iteration).  `DfsOK`, `DfsDistOK`,
+`DfsPredOK` (Spec/Dfs.lean) are what the property demands of the yielded items.
+
+The property FAILS on today's code (`dfs_statement_false`; known finding
+`early-stop-on-stale-pop`); it HOLDS for the corrected variant (`statement_fixed`), and today's
+output is the corrected output cut at the first stale pop (`dfs_prefix_of_fixed`).
+-/
+namespace GraafVerif.C06
+open GraafVerif GraafVerif.Dfs
+
+/-- The inputs the property quantifies over: arcs inside `0..order`, distinct in-range sources. -/
+structure Inputs (g : Graph) (S : List Nat) : Prop where
+  wf : g.WF
+  nodup : S.Nodup
+  inRange : ∀ s ∈ S, s < g.n
+
+/-- The iteration came to an end by itself (no panic; `fuel` would mean the model's bound on the
+number of `next` calls was too small). -/
+def Terminated (e : Ending) : Prop := e = .done ∨ e = .stale
+
+/-- C06 for a given quadruple of functions. -/
+def StatementFor (dfs : Graph → List Nat → Out Unit) (dfsDist : Graph → List Nat → Out Nat)
+    (dfsPred : Graph → List Nat → Out (Option Nat)) (preds : Graph → List Nat → List (Option Nat)) : Prop :=
+  ∀ g S, Inputs g S →
+    (Terminated (dfs g S).ending ∧ DfsOK g S (dfs g S).verts) ∧
+    (Terminated (dfsDist g S).ending ∧ DfsDistOK g S (dfsDist g S).items) ∧
+    (Terminated (dfsPred g S).ending ∧ DfsPredOK g S (dfsPred g S).items (preds g S))
+
+/-- Full statement of C06 about (the model of) today's code.  It is FALSE: `dfs_statement_false`. -/
+def Statement : Prop := StatementFor dfs dfsDist dfsPred predecessors
+
+/-- The same statement about the corrected variant.  It is TRUE: `statement_fixed`. -/
+def StatementFixed : Prop := StatementFor dfsFixed dfsDistFixed dfsPredFixed predecessorsFixed
+
+/-! ## P0 — what does hold for today's code -/
+
+/-- [P0] Fragment of C06 that today's code satisfies: the three iterators end without panic,
+yield the same vertex sequence, no vertex twice, only reachable vertices, and — if the run ends on
+an empty stack, i.e. without popping a stale entry — every reachable vertex.
+MISSING w.r.t. `Statement`: completeness when a stale entry is popped (false, see below).
+The preorder / predecessor / depth clauses are `dfs_valid_prefix`. -/
+theorem dfs_partial (g : Graph) (S : List Nat) (h : Inputs g S) :
+    Terminated (dfs g S).ending ∧
+    (dfsDist g S).verts = (dfs g S).verts ∧ (dfsPred g S).verts = (dfs g S).verts ∧
+    (dfsDist g S).ending = (dfs g S).ending ∧ (dfsPred g S).ending = (dfs g S).ending ∧
+    (dfs g S).verts.Nodup ∧
+    (∀ v ∈ (dfs g S).verts, ReachFrom g S v) ∧
+    ((dfs g S).ending = .done → ∀ v, ReachFrom g S v → v ∈ (dfs g S).verts) := by
+  obtain ⟨h1, h2, h3, h4⟩ := run_new_spec g h.wf childU S h.inRange ()
+  refine ⟨h1, ?_, ?_, ?_, ?_, h2, h3, h4⟩
+  · rw [dfsDist_eq_ann, dfs_eq_ann, Out.map_verts, Out.map_verts]
+  · rw [dfsPred_eq_ann, dfs_eq_ann, Out.map_verts, Out.map_verts]
+  · rw [dfsDist_eq_ann, dfs_eq_ann]; rfl
+  · rw [dfsPred_eq_ann, dfs_eq_ann]; rfl
+
+/-- [P0] Fuel adequacy: `order + 1` calls of `next` always suffice; more fuel changes nothing. -/
+theorem dfs_fuel_adequate (g : Graph) (S : List Nat) (h : Inputs g S) (k : Nat) :
+    run g childU (fuel g + k) (new g S ()) = dfs g S ∧
+    run g childD (fuel g + k) (new g S 0) = dfsDist g S ∧
+    run g childP (fuel g + k) (new g S none) = dfsPred g S :=
+  ⟨run_new_fuel_indep g h.wf childU S h.inRange () k, run_new_fuel_indep g h.wf childD S h.inRange 0 k,
+   run_new_fuel_indep g h.wf childP S h.inRange none k⟩
+
+/-- The witness of DESIGN.md §7 row 2 (= first line of corpus/C06.txt): 0→1, 0→2, 0→3, 3→2. -/
+def witness : Graph := ⟨4, fun u => if u = 0 then [1, 2, 3] else if u = 3 then [2] else []⟩
+
+theorem witness_inputs : Inputs witness [0] := by
+  refine ⟨?_, by simp, by simp [witness]⟩
+  intro u v hv
+  simp only [witness] at hv ⊢
+  by_cases h0 : u = 0
+  · subst h0; simp at hv; omega
+  · by_cases h3 : u = 3
+    · subst h3; simp at hv; omega
+    · simp [h0, h3] at hv
+
+/-- Today's model on the witness: 0, 3, 2 — vertex 1 is never yielded (the run ends at a stale pop). -/
+theorem witness_run : (dfs witness [0]).verts = [0, 3, 2] ∧ (dfs witness [0]).ending = .stale := by decide
+
+/-- [P0] C06 is false for today's code. -/
+theorem dfs_statement_false : ¬ Statement := by
+  intro h
+  have hex := (h witness [0] witness_inputs).1.2.1.2 1
+  rw [witness_run.1] at hex
+  have : ReachFrom witness [0] 1 := ⟨0, by simp, Reach.step (Reach.refl 0) (by simp [Graph.A, witness])⟩
+  have := hex.mpr this
+  simp at this
+
+/-! ## P1 — the corrected variant yields exactly the reachable set -/
+
+/-- [P1] `dfsFixed` (and the `Dist` / `Pred` variants) end on an empty stack having yielded every
+vertex reachable from a source exactly once and nothing else. -/
+theorem dfsFixed_reachable (g : Graph) (S : List Nat) (h : Inputs g S) :
+    ((dfsFixed g S).ending = .done ∧ Exact g S (dfsFixed g S).verts) ∧
+    ((dfsDistFixed g S).ending = .done ∧ Exact g S (dfsDistFixed g S).verts) ∧
+    ((dfsPredFixed g S).ending = .done ∧ Exact g S (dfsPredFixed g S).verts) :=
+  ⟨runFixed_new_spec g h.wf childU S h.inRange (), runFixed_new_spec g h.wf childD S h.inRange 0,
+   runFixed_new_spec g h.wf childP S h.inRange none⟩
+
+/-- [P1] Fuel adequacy of the corrected variant: `|S| + Σ outdegree + 1` pops always suffice. -/
+theorem dfsFixed_fuel_adequate (g : Graph) (S : List Nat) (h : Inputs g S) (k : Nat) :
+    runFixed g childU (fuelFixed g S + k) (new g S ()) = dfsFixed g S ∧
+    runFixed g childD (fuelFixed g S + k) (new g S 0) = dfsDistFixed g S ∧
+    runFixed g childP (fuelFixed g S + k) (new g S none) = dfsPredFixed g S :=
+  ⟨runFixed_new_fuel_indep g h.wf childU S h.inRange () k, runFixed_new_fuel_indep g h.wf childD S h.inRange 0 k,
+   runFixed_new_fuel_indep g h.wf childP S h.inRange none k⟩
+
+/-! ## P2 — preorder, and the relation between today's code and the corrected variant -/
+
+/-- [P2] Today's output is a prefix of the corrected output (items, i.e. including depths and
+predecessors), cut exactly where the corrected variant pops its first stale entry; and when
+today's run ends on an empty stack the two coincide. This is the mechanical signature of the
+known finding `early-stop-on-stale-pop` used by the driver. -/
+theorem dfs_prefix_of_fixed (g : Graph) (S : List Nat) (h : Inputs g S) :
+    (dfs g S).items <+: (dfsFixed g S).items ∧
+    (dfsDist g S).items <+: (dfsDistFixed g S).items ∧
+    (dfsPred g S).items <+: (dfsPredFixed g S).items ∧
+    ((dfs g S).ending = .stale →
+      staleAt g childU (fuelFixed g S + fuel g) (new g S ()) = some (dfs g S).items.length) ∧
+    ((dfs g S).ending = .done →
+      dfsFixed g S = dfs g S ∧ dfsDistFixed g S = dfsDist g S ∧ dfsPredFixed g S = dfsPred g S) := by
+  refine ⟨run_new_prefix g h.wf childU S h.inRange (), run_new_prefix g h.wf childD S h.inRange 0,
+    run_new_prefix g h.wf childP S h.inRange none, ?_, ?_⟩
+  · intro hs; exact run_new_stale_at g childU S () _ (by omega) hs
+  · intro hd
+    have p := dfs_partial g S h
+    exact ⟨run_new_done_eq g h.wf childU S h.inRange () hd,
+      run_new_done_eq g h.wf childD S h.inRange 0 (by rw [← hd]; exact p.2.2.2.1),
+      run_new_done_eq g h.wf childP S h.inRange none (by rw [← hd]; exact p.2.2.2.2.1)⟩
+
+/-- [P2] Everything today's code yields is a valid depth-first step with the prescribed
+predecessor and depth, and `predecessors()` is the forest of what was yielded — i.e. all of C06
+except completeness. -/
+theorem dfs_valid_prefix (g : Graph) (S : List Nat) (h : Inputs g S) :
+    ValidDfsPreorder g S (dfs g S).verts ∧
+    ∃ ann, annotate g S (dfs g S).verts = some ann ∧
+      (dfsDist g S).items = ann.map (fun a => (a.1, a.2.2)) ∧
+      (dfsPred g S).items = ann.map (fun a => (a.1, a.2.1)) ∧
+      predecessors g S = forestOf g.n ann := by
+  have ha := dfsAnn_annot g h.wf S h.inRange
+  have hv : (dfs g S).verts = (dfsAnn g S).verts := by rw [dfs_eq_ann, Out.map_verts]
+  have hnd : ((dfsAnn g S).items.map (·.1)).Nodup := by
+    have := (dfs_partial g S h).2.2.2.2.2.1; rw [hv] at this; exact this
+  refine ⟨by simp [ValidDfsPreorder, hv, ha], (dfsAnn g S).items, by rw [hv]; exact ha, ?_, ?_, ?_⟩
+  · rw [dfsDist_eq_ann]; rfl
+  · rw [dfsPred_eq_ann]; rfl
+  · unfold predecessors; rw [dfsPred_eq_ann]; exact predFold_eq_forest g.n _ hnd
+
+/-- [P2] `dfsFixed_preorder`: C06 holds in full for the corrected variant. -/
+theorem statement_fixed : StatementFixed := by
+  intro g S h
+  have ha := dfsAnnFixed_annot g h.wf S h.inRange
+  obtain ⟨⟨e1, x1⟩, ⟨e2, x2⟩, ⟨e3, x3⟩⟩ := dfsFixed_reachable g S h
+  have hv1 : (dfsFixed g S).verts = (dfsAnnFixed g S).verts := by rw [dfsFixed_eq_ann, Out.map_verts]
+  have hv2 : (dfsDistFixed g S).verts = (dfsAnnFixed g S).verts := by rw [dfsDistFixed_eq_ann, Out.map_verts]
+  have hv3 : (dfsPredFixed g S).verts = (dfsAnnFixed g S).verts := by rw [dfsPredFixed_eq_ann, Out.map_verts]
+  refine ⟨⟨Or.inl e1, x1, by simp [ValidDfsPreorder, hv1, ha]⟩, ⟨Or.inl e2, x2, ?_⟩, ⟨Or.inl e3, x3, ?_⟩⟩
+  · refine ⟨(dfsAnnFixed g S).items, ?_, ?_⟩
+    · have : (dfsDistFixed g S).items.map (·.1) = (dfsAnnFixed g S).verts := hv2
+      rw [this]; exact ha
+    · rw [dfsDistFixed_eq_ann]; rfl
+  · refine ⟨(dfsAnnFixed g S).items, ?_, ?_, ?_⟩
+    · have : (dfsPredFixed g S).items.map (·.1) = (dfsAnnFixed g S).verts := hv3
+      rw [this]; exact ha
+    · rw [dfsPredFixed_eq_ann]; rfl
+    · unfold predecessorsFixed; rw [dfsPredFixed_eq_ann]
+      refine predFold_eq_forest g.n _ ?_
+      have := x3.1; rw [hv3] at this; exact this
+
+/-- Corollary: on every input on which today's run pops no stale entry, today's code satisfies
+the full property (the cases the driver classifies `OK`). -/
+theorem dfs_statement_of_no_stale (g : Graph) (S : List Nat) (h : Inputs g S)
+    (hd : (dfs g S).ending = .done) :
+    DfsOK g S (dfs g S).verts ∧ DfsDistOK g S (dfsDist g S).items ∧
+    DfsPredOK g S (dfsPred g S).items (predecessors g S) := by
+  obtain ⟨q1, q2, q3⟩ := (dfs_prefix_of_fixed g S h).2.2.2.2 hd
+  obtain ⟨⟨_, a⟩, ⟨_, b⟩, ⟨_, c⟩⟩ := statement_fixed g S h
+  unfold predecessorsFixed at c
+  rw [q1] at a; rw [q2] at b; rw [q3] at c
+  exact ⟨a, b, c⟩
+
+/-! ## The reading of "depth-first preorder" -/
+
+/-- Two independent readings of the property's preorder clause annotate every vertex sequence
+identically: `annotate` (explicit search path: parent = deepest path vertex that still has an
+unyielded out-neighbour) and `annotateLatest` (no path: parent = most recently yielded vertex that
+still has an unyielded out-neighbour, root only when there is none, depth = parent's depth + 1). -/
+theorem spec_coherent (g : Graph) (S : List Nat) (xs : List Nat) :
+    annotateLatest g S xs = annotate g S xs := annotateLatest_eq g S xs
+
+/-! ## Non-vacuity -/
+
+/-- The documented multi-source example of dfs.rs:118-131 meets the hypotheses … -/
+def doc : Graph := ⟨8, fun u => match u with
+  | 0 => [1] | 1 => [4] | 2 => [3, 5, 6] | 3 => [0] | 6 => [5, 7] | 7 => [6] | _ => []⟩
+
+example : (dfs doc [3, 7]).verts = [7, 6, 5, 3, 0, 1, 4] ∧ (dfs doc [3, 7]).ending = .done := by decide
+example : (dfsDist doc [3, 7]).items = [(7, 0), (6, 1), (5, 2), (3, 0), (0, 1), (1, 2), (4, 3)] := by decide
+example : (dfsPred doc [3, 7]).items =
+    [(7, none), (6, some 7), (5, some 6), (3, none), (0, some 3), (1, some 0), (4, some 1)] := by decide
+example : annotate doc [3, 7] [7, 6, 5, 3, 0, 1, 4] =
+    some [(7, none, 0), (6, some 7, 1), (5, some 6, 2), (3, none, 0), (0, some 3, 1), (1, some 0, 2), (4, some 1, 3)] := by
+  decide
+/-- … and the oracle is not trivially true: it rejects a breadth-first order and a wrong root. -/
+example : ¬ ValidDfsPreorder witness [0] [0, 3, 1] := by decide
+example : ¬ ValidDfsPreorder witness [0] [1] := by decide
+/-- It accepts ANY depth-first preorder, not only the neighbour order the code uses. -/
+example : ValidDfsPreorder witness [0] [0, 1, 2, 3] ∧ ValidDfsPreorder witness [0] [0, 2, 1, 3] ∧
+    ValidDfsPreorder witness [0] [0, 3, 2, 1] := by decide
+/-- The corrected variant on the witness yields all four vertices; today's `[0, 3, 2]` is its prefix
+of length `staleAt = 3`. -/
+example : (dfsFixed witness [0]).verts = [0, 3, 2, 1] ∧
+    staleAt witness childU (fuelFixed witness [0]) (new witness [0] ()) = some 3 := by decide
+example : predecessors witness [0] = [none, none, some 3, some 0] ∧
+    predecessorsFixed witness [0] = [none, some 0, some 3, some 0] := by decide
+
+end GraafVerif.C06
